@@ -52,10 +52,13 @@ CHECKS = [
           "lambda |Dc|^2 >= 0; two solutions have equal fitted values wherever the weight is positive (equal coefficients when the form is "
           "definite); solutions combine linearly in the responses; zero-weight responses do not enter; any beta0 annihilated by the penalty "
           "matrices is reproduced for EVERY lambda; d-th differences annihilate polynomial sequences of degree < d (d=1,2,3); leverages "
-          "w_i b_i.A^-1 b_i lie in [0,1]. Tie: PSplines.fit/predict in 1-D, 2-D, 3-D with independent n_segments/degree per dimension: "
+          "w_i b_i.A^-1 b_i lie in [0,1]; CONSTANTS ARE REPRODUCED, end to end on the executed model (1-D): the difference matrix of any order "
+          ">= 1 annihilates constant coefficient vectors, the Cox-de Boor design maps them to the constant on the closed domain (partition "
+          "of unity), hence every solution of the normal equations of constant responses has the constant as fitted value at every "
+          "observation of positive weight, for every penalty weight. Tie: PSplines.fit/predict in 1-D, 2-D, 3-D with independent n_segments/degree per dimension: "
           "beta_hat, y_hat, hat-matrix diagonal and predictions are verified as certificates against the MODEL's normal equations (Cox-de Boor "
           "basis, Kronecker rows, difference penalties) exactly in Q.",
-  "note": STD_NOTE + " Partial: polynomial reproduction needs Marsden's identity (not proved; monitored). The solver's output is checked as a "
+  "note": STD_NOTE + " Partial: polynomial reproduction is proved for degree 0; degrees 1 and 2 need Marsden's identity (not proved; monitored). The solver's output is checked as a "
           "certificate (residual), not recomputed; leverage certificates are exact for all observations in 1-D and for a sample in 2-D/3-D "
           "(all are compared with a NumPy reference)."},
  {"id": "C06",
